@@ -167,7 +167,10 @@ def ref_constraint(name, bound, v):
         items = list(v)
         for i in range(len(items)):
             for j in range(i):
-                if items[i] == items[j]:
-                    return False
+                try:
+                    if items[i] == items[j]:
+                        return False
+                except Exception:
+                    return None       # items whose comparison raises: uniqueness is not decidable (not judged)
         return True
     raise KeyError(name)
